@@ -786,4 +786,223 @@ Section Bridge.
         cbn [co_call co_iter_vals py_iter bind set_result app]. reflexivity.
       + rewrite H. reflexivity.
   Qed.
+  (* ---------------------------------------------------------------- Set.__set__ *)
+
+  Lemma set_loop (rec : nat -> pyval -> res pyval) name sz u a im :
+    forall l k_after acc nm,
+      match mapM (rec 0%nat) l with
+      | Ok r =>
+          Src_Set_set_loop1 re_match rec (coll_self name (OFld 0) sz u a im) k_after (map OVal l) (OVal (PList acc)) nm
+          = k_after (OVal (PList (acc ++ r))) nm
+      | Raise x =>
+          Src_Set_set_loop1 re_match rec (coll_self name (OFld 0) sz u a im) k_after (map OVal l) (OVal (PList acc)) nm
+          = Raise x
+      end.
+  Proof.
+    induction l as [|x l IH]; intros k_after acc nm; cbn [mapM map Src_Set_set_loop1].
+    - rewrite app_nil_r. reflexivity.
+    - sx2. cbn [co_field_set]. rewrite scratch0_validating.
+      destruct (rec 0%nat x) as [nf|ex]; cbn [bind]; [|reflexivity].
+      sx2. specialize (IH k_after (acc ++ [nf]) nm).
+      destruct (mapM (rec 0%nat) l) as [r|ex]; cbn [bind].
+      + rewrite IH. rewrite <- app_assoc. reflexivity.
+      + exact IH.
+  Qed.
+
+  (* the converted elements can be put in a set: the model's value universe does not force the elements of a
+     [PSet] to be hashable, Python does *)
+  Definition set_elems_hashable (g : field) (v : pyval) : bool :=
+    match v with
+    | PSet _ l => match mapM (fun x => vset re_match e g x) l with Ok r => forallb py_hashable' r | Raise _ => true end
+    | _ => true
+    end.
+
+  Theorem generated_set_items : forall g sz u a im name nm iattrs v,
+      validating iattrs = true -> set_elems_hashable g v = true ->
+      set_result (Src_Set_set re_match (rec_of [g]) nm (coll_self name (OFld 0) sz u a im) (OObj KInst iattrs) (OVal v))
+      = vset re_match e (FSet false (Some g) sz) v.
+  Proof.
+    intros g sz u a im name nm iattrs v Hi Hh.
+    unfold Src_Set_set.
+    destruct (inst_flag_trust nm iattrs Hi) as (x & Hx & Hxt). rewrite Hx. cbn [bind]. rewrite Hxt. cbn [bind].
+    destruct v; try reflexivity.
+    cbn [vset orb]. destruct frozen;
+      (cbn [co_isinstance co_isinstance1 isinstance1 bind py_not negb];
+       sx2; rewrite validate_size_self, generated_validate_size_set;
+       destruct (size_check sz (lenZ l)) as [[]|x1]; cbn [bind]; [|reflexivity];
+       sx2; cbn [co_iter py_iter bind];
+       match goal with
+       | |- context [Src_Set_set_loop1 _ _ _ ?ka _ _ ?nm0] =>
+           pose proof (set_loop (rec_of [g]) name sz u a im l ka [] nm0) as H
+       end;
+       change (rec_of [g] 0%nat) with (fun x => vset re_match e g x) in H;
+       cbn [set_elems_hashable] in Hh;
+       destruct (mapM (fun x => vset re_match e g x) l) as [r|ex]; cbn [bind];
+       [ rewrite H; cbn [app co_call co_iter_vals py_iter bind]; rewrite Hh; reflexivity
+       | rewrite H; reflexivity ]).
+  Qed.
+
+  Theorem generated_set_plain : forall (rec : nat -> pyval -> res pyval) sz u a im name nm iattrs v,
+      validating iattrs = true ->
+      set_result (Src_Set_set re_match rec nm (coll_self name (OVal PNone) sz u a im) (OObj KInst iattrs) (OVal v))
+      = vset re_match e (FSet false None sz) v.
+  Proof.
+    intros rec sz u a im name nm iattrs v Hi.
+    unfold Src_Set_set.
+    destruct (inst_flag_trust nm iattrs Hi) as (x & Hx & Hxt). rewrite Hx. cbn [bind]. rewrite Hxt. cbn [bind].
+    destruct v; try reflexivity.
+    cbn [vset orb]. destruct frozen;
+      (cbn [co_isinstance co_isinstance1 isinstance1 bind py_not negb];
+       sx2; rewrite validate_size_self, generated_validate_size_set;
+       destruct (size_check sz (lenZ l)) as [[]|x1]; cbn [bind]; reflexivity).
+  Qed.
+  (* ---------------------------------------------------------------- ImmutableSet.__set__ *)
+
+  Definition set_add (sl : list pyval) (x : pyval) : list pyval := if py_in x sl then sl else sl ++ [x].
+
+  Lemma existsb_rev {A} (f : A -> bool) l : existsb f (rev l) = existsb f l.
+  Proof.
+    induction l as [|x l IH]; [reflexivity|]. cbn [rev existsb]. rewrite existsb_app, IH. cbn [existsb].
+    rewrite orb_false_r. apply orb_comm.
+  Qed.
+
+  Lemma fold_set_add_dedup : forall l seen, fold_left set_add l (rev seen) = py_dedup_aux seen l.
+  Proof.
+    induction l as [|x l IH]; intros seen; [reflexivity|]. cbn [fold_left py_dedup_aux]. unfold set_add at 2.
+    unfold py_in at 1. rewrite existsb_rev. fold (py_in x seen).
+    destruct (py_in x seen); [apply IH|]. change (rev seen ++ [x]) with (rev (x :: seen)). apply IH.
+  Qed.
+
+  (* every element converted before the first failure can be hashed *)
+  Fixpoint conv_hashable (f : pyval -> res pyval) (l : list pyval) : bool :=
+    match l with
+    | [] => true
+    | x :: t => match f x with Ok y => py_hashable' y && conv_hashable f t | Raise _ => true end
+    end.
+
+  Lemma iset_loop (rec : nat -> pyval -> res pyval) name sz u a im :
+    forall l k_after attrs val sl nm,
+      validating attrs = true -> name_ok (nm 0%nat) = true -> conv_hashable (rec 0%nat) l = true ->
+      match mapM (rec 0%nat) l with
+      | Ok r => exists attrs', validating attrs' = true /\
+          Src_ImmutableSet_set_loop1 re_match rec (coll_self name (OFld 0) sz u a im) k_after (map OVal l)
+            (OObj KScratch attrs) val (OVal (PSet false sl)) nm
+          = k_after (OObj KScratch attrs')
+                    (match l with [] => val | _ :: _ => OVal (PSet false (fold_left set_add r sl)) end)
+                    (OVal (PSet false (fold_left set_add r sl))) nm
+      | Raise x =>
+          Src_ImmutableSet_set_loop1 re_match rec (coll_self name (OFld 0) sz u a im) k_after (map OVal l)
+            (OObj KScratch attrs) val (OVal (PSet false sl)) nm = Raise x
+      end.
+  Proof.
+    induction l as [|x l IH]; intros k_after attrs val sl nm Hv Hn Hh; cbn [mapM map Src_ImmutableSet_set_loop1].
+    - exists attrs. split; [exact Hv | reflexivity].
+    - cbn [conv_hashable] in Hh. sx2. cbn [co_truthy py_truthy bind].
+      assert (Hsc : validating scratch0 = true) by exact scratch0_validating.
+      destruct im; cbn [bind]; sx2; cbn [co_field_set]; rewrite ?Hv, ?Hsc;
+        (destruct (rec 0%nat x) as [nf|ex]; cbn [bind]; [|reflexivity]);
+        apply andb_true_iff in Hh; destruct Hh as [Hh1 Hh2];
+        sx2; cbn [co_set_add co_val bind]; rewrite Hh1; fold (set_add sl nf);
+        match goal with
+        | |- context [Src_ImmutableSet_set_loop1 _ _ _ _ _ (OObj KScratch ?at') _ _ _] =>
+            specialize (IH k_after at' (OVal (PSet false (set_add sl nf))) (set_add sl nf) nm)
+        end;
+        rewrite validating_set in IH by exact Hn; specialize (IH ltac:(assumption) Hn Hh2);
+        (destruct l as [|x2 l2];
+         [ cbn [mapM bind fold_left] in *; destruct IH as (attrs' & Hv' & IH); exists attrs'; split; [exact Hv' | exact IH]
+         | destruct (mapM (rec 0%nat) (x2 :: l2)) as [r|ex]; cbn [bind fold_left];
+           [ destruct IH as (attrs' & Hv' & IH); exists attrs'; split; [exact Hv' | exact IH] | exact IH ] ]).
+  Qed.
+  Lemma set_result_repack (r : res (cobj * names)) : set_result (p <- r ;; Ok (fst p, snd p)) = set_result r.
+  Proof. destruct r as [[o n]|ex]; reflexivity. Qed.
+
+  Lemma conv_hashable_mapM (f : pyval -> res pyval) : forall l r,
+      conv_hashable f l = true -> mapM f l = Ok r -> forallb py_hashable' r = true.
+  Proof.
+    induction l as [|x l IH]; intros r Hh Hm; cbn [mapM conv_hashable] in *.
+    - inversion Hm. reflexivity.
+    - destruct (f x) as [y|ex]; cbn [bind] in Hm; [|discriminate Hm].
+      apply andb_true_iff in Hh. destruct Hh as [H1 H2].
+      destruct (mapM f l) as [ys|ex]; cbn [bind] in Hm; [|discriminate Hm].
+      inversion Hm. cbn [forallb]. rewrite H1. exact (IH ys H2 eq_refl).
+  Qed.
+
+  Definition iset_first_ok (g : field) (v : pyval) : bool :=
+    match v with PSet _ l => conv_hashable (fun x => vset re_match e g x) l | _ => true end.
+
+  (* ImmutableSet.__set__ converts the elements, then hands the frozenset to Set.__set__ (its super), which
+     checks the size and converts the elements AGAIN: the chain is [vset] applied twice *)
+  Theorem generated_immutableset_items : forall g sz u a im name nm iattrs v,
+      name_ok name = true -> validating iattrs = true ->
+      iset_first_ok g v = true ->
+      match vset re_match e (FSet true (Some g) sz) v with Ok nf => set_elems_hashable g nf | Raise _ => true end = true ->
+      set_result (Src_ImmutableSet_set re_match (rec_of [g]) nm (coll_self name (OFld 0) sz u a im) (OObj KInst iattrs) (OVal v))
+      = (nf <- vset re_match e (FSet true (Some g) sz) v ;; vset re_match e (FSet true (Some g) sz) nf).
+  Proof.
+    intros g sz u a im name nm iattrs v Hn Hi Hh1 Hh2.
+    unfold Src_ImmutableSet_set.
+    destruct v; try reflexivity.
+    assert (Hinst : co_isinstance (OVal (PSet frozen l)) [OCls K_set; OCls K_frozenset] = Ok true) by (destruct frozen; reflexivity).
+    rewrite Hinst. cbn [py_not bind negb].
+    sx2. rewrite validate_size_self, generated_validate_size_set.
+    cbn [vset orb] in *.
+    destruct (size_check sz (lenZ l)) as [[]|x1] eqn:Hsz; cbn [bind] in *; [|reflexivity].
+    sx2. cbn [co_call co_iter py_iter bind].
+    match goal with
+    | |- context [Src_ImmutableSet_set_loop1 _ _ _ ?ka _ (OObj KScratch ?at0) ?val _ ?nm0] =>
+        pose proof (iset_loop (rec_of [g]) name sz u a im l ka at0 val [] nm0 scratch0_validating) as H
+    end.
+    rewrite nm_set_same in H. specialize (H Hn).
+    change (rec_of [g] 0%nat) with (fun x => vset re_match e g x) in H.
+    cbn [iset_first_ok] in Hh1. specialize (H Hh1).
+    destruct (mapM (fun x => vset re_match e g x) l) as [r|ex] eqn:Hm; cbn [bind] in *.
+    - destruct H as (attrs' & _ & H). rewrite H.
+      pose proof (fold_set_add_dedup r []) as Hd. cbn [rev] in Hd. fold (py_dedup r) in Hd. rewrite Hd.
+      assert (Hfin : forall nm1, set_result (p40 <- Src_Set_set re_match (rec_of [g]) nm1 (coll_self name (OFld 0) sz u a im)
+                                                     (OObj KInst iattrs) (OVal (PSet true (py_dedup r))) ;; Ok (fst p40, snd p40))
+                                 = vset re_match e (FSet true (Some g) sz) (PSet true (py_dedup r))).
+      { intros nm1. rewrite set_result_repack. rewrite generated_set_items; [reflexivity | exact Hi | exact Hh2]. }
+      destruct l as [|x0 l0].
+      + cbn [mapM] in Hm. inversion Hm. subst r. change (py_dedup []) with (@nil pyval) in *.
+        destruct frozen; cbn [co_isinstance co_isinstance1 isinstance1 bind co_call]; apply Hfin.
+      + cbn [co_isinstance co_isinstance1 isinstance1 bind co_call]. apply Hfin.
+    - rewrite H. reflexivity.
+  Qed.
+  Theorem generated_immutableset_plain : forall (rec : nat -> pyval -> res pyval) sz u a im name nm iattrs v,
+      validating iattrs = true ->
+      set_result (Src_ImmutableSet_set re_match rec nm (coll_self name (OVal PNone) sz u a im) (OObj KInst iattrs) (OVal v))
+      = vset re_match e (FSet true None sz) v.
+  Proof.
+    intros rec sz u a im name nm iattrs v Hi.
+    unfold Src_ImmutableSet_set.
+    destruct v; try reflexivity.
+    assert (Hinst : co_isinstance (OVal (PSet frozen l)) [OCls K_set; OCls K_frozenset] = Ok true) by (destruct frozen; reflexivity).
+    rewrite Hinst. cbn [py_not bind negb].
+    sx2. rewrite validate_size_self, generated_validate_size_set.
+    cbn [vset orb].
+    destruct (size_check sz (lenZ l)) as [[]|x1] eqn:Hsz; cbn [bind]; [|reflexivity].
+    sx2.
+    assert (Hfin : forall nm1, set_result (p40 <- Src_Set_set re_match rec nm1 (coll_self name (OVal PNone) sz u a im)
+                                                   (OObj KInst iattrs) (OVal (PSet true l)) ;; Ok (fst p40, snd p40))
+                               = Ok (PSet true l)).
+    { intros nm1. rewrite set_result_repack. rewrite generated_set_plain by exact Hi.
+      cbn [vset orb]. rewrite Hsz. reflexivity. }
+    destruct frozen; cbn [co_isinstance co_isinstance1 isinstance1 bind co_call]; apply Hfin.
+  Qed.
+
+  (* when the first normal form is a fixed point of the chain, the double pass is a single [vset] *)
+  Corollary generated_immutableset_items_fix : forall g sz u a im name nm iattrs v,
+      name_ok name = true -> validating iattrs = true ->
+      iset_first_ok g v = true ->
+      match vset re_match e (FSet true (Some g) sz) v with
+      | Ok nf => set_elems_hashable g nf | Raise _ => true end = true ->
+      (forall nf, vset re_match e (FSet true (Some g) sz) v = Ok nf -> vset re_match e (FSet true (Some g) sz) nf = Ok nf) ->
+      set_result (Src_ImmutableSet_set re_match (rec_of [g]) nm (coll_self name (OFld 0) sz u a im) (OObj KInst iattrs) (OVal v))
+      = vset re_match e (FSet true (Some g) sz) v.
+  Proof.
+    intros g sz u a im name nm iattrs v Hn Hi H1 H2 Hfix.
+    rewrite generated_immutableset_items by assumption.
+    destruct (vset re_match e (FSet true (Some g) sz) v) as [nf|ex] eqn:E; cbn [bind]; [|reflexivity].
+    apply Hfix. reflexivity.
+  Qed.
 End Bridge.
